@@ -9,12 +9,18 @@ F_MOD = 'atsim/potentials/_modifiers.py'
 X, Y, XYk = z3.StringVal('x'), z3.StringVal('y'), z3.StringVal('xy')
 
 # _parse_x_y / _parse_xy as callees of _parse_data: they subscript the section, so the keys must be present
+def _xs_of(v, key):
+    ts = TRc.split_ws(sec_get(v.section, z3.StringVal(key)))
+    return TRc.tokvals(ts, z3.Length(ts))
 REG.add(Contract(F_CP, '_TableFormSection._parse_x_y',
     params=[('self', T.Obj('_TableFormSection')), ('section_name', T.Str), ('section', T.Obj('SectionProxy'))],
-    requires=lambda v: [sec_has(v.section, X), sec_has(v.section, Y)],
-    result=T.Tuple(T.List(T.Real), T.List(T.Real)), trusted=True,
-    note='callee contract used by _parse_data: needs both keys (it subscripts section["x"] and section["y"]); its own body (two comprehensions with float()) is covered by the oracle',
-    props=['C16']))
+    requires=lambda v: [sec_has(v.section, X), sec_has(v.section, Y)],        # (it subscripts section["x"] and section["y"]: established by _parse_data)
+    result=T.Tuple(T.List(T.Real), T.List(T.Real)),
+    ensures=lambda v, old, res: [res[0] == _xs_of(v, 'x'), res[1] == _xs_of(v, 'y'), z3.Length(res[0]) == z3.Length(res[1])],
+    post_names=['x-is-the-numbers-of-the-x-entry', 'y-is-the-numbers-of-the-y-entry', 'only-equal-counts-return'],
+    comprehensions={0: (TRc.tokvals, lambda v: [TRc.split_ws(sec_get(v.section, X))]), 1: (TRc.tokvals, lambda v: [TRc.split_ws(sec_get(v.section, Y))])},
+    raises_when=lambda v, old, exc: [z3.BoolVal(exc.cls == 'ConfigParserException')], on_raise=lambda v, old: [], raises_classes=['ConfigParserException'],
+    carries=['post', 'raises'], props=['C16', 'C18']))
 
 def _data_post(v, old, res):
     s = v.section
